@@ -124,7 +124,7 @@ def run_case(case: Dict[str, Any], ctx: Any) -> core.CaseResult:
                 res.bad("parts-sum", f"rank {r}: parts do not add up to kernel_time: {got}")
             for part, col in (("idle_time(us)", "idle_time_pctg"), ("compute_time(us)", "compute_time_pctg"), ("non_compute_time(us)", "non_compute_time_pctg")):
                 want = round(100 * exp[part] / span, 2)
-                if abs(float(row[col]) - want) > 1e-9:
+                if abs(float(row[col]) - 100 * exp[part] / span) > 0.005 + 1e-9:       # two decimals; the library rounds the binary product
                     res.bad("percentage", f"rank {r}: {col}={row[col]} but {part}/kernel_time = {exp[part]}/{span} -> {want}")
         res.nontrivial = nontrivial
         res.trivial_reason = "no overlapping or touching activities"
